@@ -38,6 +38,10 @@ structure Defects where
   fragmentNamedOn : Bool := false
   /-- `query () {a}`: empty variable definitions accepted -/
   emptyVarDefs : Bool := false
+  /-- `string` falls back to the plain-string alternative when the input starts with `"""` but is
+      not a complete block string: `["""" ""]` is read as three empty strings (the spec: `""` is a
+      StringValue only when not followed by `"`; an unterminated block string is an error) -/
+  emptyStringBeforeQuote : Bool := false
   /-- `\"""` is kept verbatim in block strings -/
   blockEscapeKept : Bool := false
   /-- a whitespace-only line shorter than the common indent keeps its spaces -/
@@ -53,7 +57,7 @@ def Defects.none : Defects := {}
 def Defects.pinned : Defects :=
   { atomicTypeRule := true, varDefDirectivesFirst := true, varDefNonConstDirectives := true,
     keywordGlue := true, numberDigitFollow := true, onNeedsWhitespace := true, fragmentNamedOn := true,
-    emptyVarDefs := true, blockEscapeKept := true, shortBlankLineKept := true, intAsFloat := true,
+    emptyVarDefs := true, emptyStringBeforeQuote := true, blockEscapeKept := true, shortBlankLineKept := true, intAsFloat := true,
     floatDoubleRounding := true }
 
 -- ------------------------------------------------------------------ grammar patches (repairs)
@@ -162,6 +166,16 @@ def varDefs1 : Expr → Expr
 def patchVarDefs (g : Grammar) : Grammar :=
   mapRule "variable_definitions" (fun r => { r with expr := mapExpr varDefs1 r.expr }) g
 
+def tripleQuote : List Char := ['"', '"', '"']
+
+/-- repair of `emptyStringBeforeQuote`: the plain-string alternative of `string` is guarded by
+    `!"\"\"\""` (a text that starts with three quotes is a block string or nothing) -/
+def patchString (g : Grammar) : Grammar :=
+  mapRule "string" (fun r => { r with expr :=
+    match r.expr with
+    | .choice blk plain => .choice blk (.seq (.neg (.str tripleQuote)) plain)
+    | e => e }) g
+
 /-- the grammar the model interprets: the generated one with the repairs of the toggles that are off
     (`patchKeywords` last so that it also covers literals introduced by other repairs) -/
 def grammarFor (D : Defects) : Grammar :=
@@ -172,6 +186,7 @@ def grammarFor (D : Defects) : Grammar :=
   let g := if D.onNeedsWhitespace then g else patchTypeCondition g
   let g := if D.fragmentNamedOn then g else patchFragmentName g
   let g := if D.emptyVarDefs then g else patchVarDefs g
+  let g := if D.emptyStringBeforeQuote then g else patchString g
   if D.keywordGlue then g else patchKeywords g
 
 -- ------------------------------------------------------------------ utils.rs
